@@ -139,6 +139,20 @@ def redblack(rng, n, P):
         cuts = [0] + inner + [n]
     return T, n, cuts
 
+def pairs_boundary(rng, P):
+    """m mutually strong pairs (a, b), each on one rank, a weakly (positively) coupled to a singleton c on the next rank:
+       every pair has a boundary member although its strong edge is on-process (exercises the boundary treatment of Falgout)"""
+    m = rng.randint(1, 4); per = [[] for _ in range(P)]; trip = []
+    for k in range(m):
+        r = k % P; a, b, c = ("a", k), ("b", k), ("c", k)
+        per[r] += [a, b] if rng.random() < 0.5 else [b, a]; per[(r + 1) % P].append(c)
+        trip += [(a, a, 2), (b, b, 2), (c, c, 2), (a, b, -1), (b, a, -1), (a, c, Fraction(1, 64)), (c, a, Fraction(1, 64))]
+    order = [u for r in range(P) for u in per[r]]; new = {u: i for i, u in enumerate(order)}
+    cuts = [0]
+    for r in range(P): cuts.append(cuts[-1] + len(per[r]))
+    T = [(new[i], new[j], Fraction(v)) for (i, j, v) in trip]; rng.shuffle(T)
+    return T, len(order), cuts
+
 def gen_partition(rng, n, P):
     """first_rows of P contiguous blocks: default, balanced explicit, unbalanced, with 1-row / empty blocks"""
     r = rng.random()
@@ -168,6 +182,9 @@ def gen_cases(ctx, P, count, with_seq):
         rb_part = None
         if solver in ("prs", "psa") and rng.random() < 0.07:
             T, n, rb_part = redblack(rng, rng.choice([P, P + 1, 8, 12, rng.randint(4, 40)]), P); info = "redblack"; tiny = False
+        pb_part = None
+        if solver == "prs" and P >= 2 and rng.random() < 0.05:
+            T, n, pb_part = pairs_boundary(rng, P); info = "pairs_boundary"; tiny = False
         if tiny:
             max_coarse = rng.choice([n, n, n + 1, max(1, n - 1), 50])
         else:
@@ -190,6 +207,9 @@ def gen_cases(ctx, P, count, with_seq):
         if solver in ("prs", "psa"): tap = rng.choice([-1, -1, 0, 0, 1, 2])
         part = gen_partition(rng, n, P) if solver in ("prs", "psa") else None
         if info == "redblack": part = rb_part; max_coarse = rng.choice([1, 2, max(1, n // 4)])
+        if info == "pairs_boundary":
+            part = pb_part; max_coarse = 1; theta = "1/4"; strength = 0; nvars = 1; coarsen = rng.choice([2, 2, 0, 1, 3, 4])
+            max_levels = rng.choice([5, 8, 25])
         lit = [n, n] + ([0] if part is None else [P] + part + part) + [len(T)]
         for (i, j, v) in T: lit += [i, j, nums.tok_num(v)]
         cid = "p%dc%d" % (P, k)
@@ -280,7 +300,7 @@ def strength_has_edge(rows, n, theta, kind, owner=None):
         else:
             scale = min(off + [Fraction(RAND_MAX)])
         thr[i] = scale * theta
-    edge = local = False
+    edge = local = False; S = [[] for _ in range(n)]
     for i in range(n):
         for c, v in rows[i].items():
             if c == i: continue
@@ -288,10 +308,11 @@ def strength_has_edge(rows, n, theta, kind, owner=None):
             if not strong and kind == 1 and 0 <= c < n:
                 strong = (neg[c] and v > thr[c]) or (not neg[c] and v < thr[c])
             if strong:
-                edge = True
+                edge = True; S[i].append(c)
                 if owner is None or (0 <= c < n and owner[i] == owner[c]): local = True
-        if edge and local: break
-    return edge, local
+    # an edge i -> c whose target c has a strong dependency of its own (its row of S is not empty)
+    dep = any(0 <= c < n and S[c] for i in range(n) for c in S[i])
+    return edge, local, dep
 
 def to_rows(trip, n):
     rows = [dict() for _ in range(n)]
@@ -417,10 +438,10 @@ def evaluate(c, D):
         cont = cont_cond(mc, ml, n, l + 1)
         b = [sizes, vec, maps, cont]
         # ---- strength graph has an edge (exact re-evaluation; the library's own count must agree)
-        edge = False; local_edge = True
+        edge = False; local_edge = True; dep_edge = True
         if c["nvars"] == 1:
             owner = [r for r, R in enumerate(lv.ranks) for _ in range(R.lrows)]
-            mine, local_edge = strength_has_edge(Arows, n, c["theta"], c["strength"], owner if len(owner) == n else None)
+            mine, local_edge, dep_edge = strength_has_edge(Arows, n, c["theta"], c["strength"], owner if len(owner) == n else None)
             lib = [R.edges for R in lv.ranks]
             if None not in lib and (sum(lib) > 0) == mine: edge = mine
             else: notes["edge_flag_disagree"] = notes.get("edge_flag_disagree", 0) + 1
@@ -485,8 +506,12 @@ def evaluate(c, D):
                 # ParRugeStubenSolver/RS runs the serial RS on the diagonal block only (levels 0-2): classified apart
                 cl = "strict"
                 if c["solver"] == "prs" and c["coarsen"] == 0 and l < 3 and not local_edge: cl = "strict_rs_local"
-                V.append((cl, l, "level %d has a strength edge%s but level %d has the same size %d" % (
-                    l, "" if local_edge else " (none of them on-process)", l + 1, n)))
+                # split_falgout: reset_boundaries un-assigns every boundary point after the local RS pass, CLJP then makes them C
+                elif c["solver"] == "prs" and (c["coarsen"] == 2 or (c["coarsen"] == 0 and l >= 3)): cl = "strict_falgout"
+                elif not dep_edge: cl = "strict_nodep"
+                V.append((cl, l, "level %d has a strength edge%s%s but level %d has the same size %d" % (
+                    l, "" if local_edge else " (none of them on-process)",
+                    "" if dep_edge else " (but no edge whose target has a strong dependency of its own)", l + 1, n)))
             b += [pro, gal, coa]
         else:
             if cont: V.append(("stop", l, "coarsest level %d has n=%d > max_coarse=%d and %d levels < max_levels=%d: setup stopped early" % (l, n, mc, nlev, ml)))
@@ -559,6 +584,8 @@ def record(ctx, c, r):
     if L[-1]["n"] == 0: ctx.count("empty_coarsest")
     for (cl, l, txt) in V[:6]:
         if cl == "strict_rs_local": ctx.signal("O", "hier:strict:prs:rs_local", txt, case=c["line"])
+        elif cl == "strict_nodep": ctx.signal("O", "hier:strict:%s:nodep_target" % c["solver"], txt, case=c["line"])
+        elif cl == "strict_falgout": ctx.signal("O", "hier:strict:prs:falgout_boundary", txt, case=c["line"])
         else: ctx.signal("O", "hier:%s:%s" % (cl, c["solver"]), txt, case=c["line"])
     if c.get("nostop") and not any(cl.startswith("strict") for (cl, l, txt) in V):
         ctx.count("nostop_level_without_strength_edge")
@@ -640,7 +667,7 @@ def run(ctx):
                 "and ParRS/ParSA on 1-4 processes with default/balanced/unbalanced/1-row/empty-block partitions; all coarsen x interp "
                 "x strength, theta in {0,1/4,1/2,3/4,1}, max_coarse small, max_levels in {-1,0,1,2,3,4,25}, tap_amg in {-1,0,1,2}; "
                 "non-trivial = hierarchy with >= 2 levels; distinct = distinct case text")
-    per = ctx.scale(34, 340)
+    per = ctx.scale(30, 300)
     allcases = []
     if ctx.replay:
         plan = {}
